@@ -24,7 +24,7 @@ SITES = [
     (P + "codegen/ast.rs", "once", "KEYWORDS", "once", "CFmtKeywords", "", ""),
     (P + "codegen/ast.rs", "once", "VALID_PRQL_IDENT", "once", "CRegexPrqlIdent", "", ""),
     (P + "debug/log.rs", "clock", "log_start:SystemTime", "nooutput", "", "", "timestamp stored in the debug log only"),
-    (P + "debug/log.rs", "lock", "CURRENT_LOG", "lock", "g_log / g_poisoned", "F10j-concurrent-log-restart-underflow", "log slot of Model/Globals.v; log_start no longer asserts (F10h fixed)"),
+    (P + "debug/log.rs", "lock", "CURRENT_LOG", "lock", "g_log / g_poisoned", "", "log slot of Model/Globals.v; log_start no longer asserts (F10h fixed by 9396557); LogSuppressLock::drop saturates (F10j fixed by 2f50a3c): no step can poison the lock (c11_concurrent_log_api_independent)"),
     (P + "debug/render_html.rs", "hash-iter", "write_decl:names.iter +sorted", "nooutput", "", "", "HTML rendering of the debug log"),
     (P + "debug/render_html.rs", "hash-iter", "write_repr_decl:names.iter +sorted", "nooutput", "", "", "HTML rendering of the debug log"),
     (P + "debug/render_html.rs", "hash-iter", "write_repr_prql:source_ids.iter", "nooutput", "", "", "HTML rendering of the debug log"),
@@ -33,6 +33,7 @@ SITES = [
     (P + "ir/pl/lineage.rs", "hash-iter", "sorted_set:value.iter +sorted", "inv:sort", "perm_invariant_sort", "", ".sorted() before serialising"),
     (P + "lib.rs", "env", "compiler_version:var(PRQL_VERSION_OVERRIDE)", "env", "SReadEnv", "", "PRQL_VERSION_OVERRIDE is read on every call; constant during a run (assumption)"),
     (P + "lib.rs", "hash-iter", "insert:source_ids.keys", "inv:max", "perm_invariant_max", "", ".keys().max()"),
+    (P + "lib.rs", "hash-iter", "prql_to_tokens:source_ids.keys", "inv:min", "perm_invariant_min", "", ".keys().copied().min(): the smallest source id names the source the lexer errors are composed against (d650e1d)"),
     (P + "lib.rs", "once", "COMPILER_VERSION", "once", "CVersion", "", ""),
     (P + "parser.rs", "hash-iter", "linearize_tree:sources.for +sorted", "inv:sort_by_key", "perm_invariant_sort_by_key", "", "sorted by module path afterwards (module paths of distinct files assumed distinct)"),
     (P + "parser.rs", "hash-iter", "linearize_tree:sources.keys +sorted", "inv:sort", "c11_perm_invariant_root_choice", "", ".keys().next() only when len == 1; root = .keys().sorted().find(starts_with_uppercase) (was F10g); the error listing is .sorted()"),
@@ -52,12 +53,13 @@ SITES = [
     (P + "semantic/module.rs", "hash-iter", "from_exprs:exprs.into_iter", "inv:map_values", "perm_invariant_map_values", "", "re-collected into a map"),
     (P + "semantic/module.rs", "hash-iter", "into_exprs:names.into_iter", "inv:map_values", "perm_invariant_map_values", "", "re-collected into a map"),
     (P + "semantic/reporting.rs", "hash-iter", "label_module:names.iter", "nooutput", "", "", "lineage / debug reporting"),
-    (P + "semantic/resolver/expr.rs", "hash-iter", "construct_tuple_from_module:names.iter +sorted", "inv:sort_by_key", "perm_invariant_sort_by_key", "", ".sorted_by_key(order); distinct orders ASSUMED (if two declarations shared an order their iteration order would survive: sort_by_key_with_shared_key_order_dependent); no variation observed"),
+    (P + "semantic/resolver/expr.rs", "hash-iter", "construct_tuple_from_module:names.iter +sorted", "inv:sort", "c11_perm_invariant_this_wildcard", "", ".sorted_by((order, name)) since 987d30b: a total order on the (distinct) names of one module; before, .sorted_by_key(order) kept the iteration order of an input sub-module and a direct column that share an order (was F10k)"),
     (P + "semantic/resolver/transforms.rs", "hash-iter", "apply_assign:e_e.difference +sorted", "inv:sort", "perm_invariant_sort", "", "columns left when two wildcards of one input cancel (`select !{!{a, b}}`): .difference(..).sorted() before they are pushed"),
     (P + "semantic/resolver/functions.rs", "hash-iter", "apply_args_to_closure:named_args.into_keys", "inv:min", "c11_perm_invariant_apply_args_to_closure", "", ".into_keys().min(): the alphabetically first leftover argument is named (was F10)"),
     (P + "semantic/resolver/functions.rs", "hash-iter", "resolve_function_args:other.for", "nothash", "", "", "`other` is a Vec here"),
     (P + "semantic/resolver/names.rs", "hash-iter", "ambiguous_error:idents.for +sorted", "inv:sort", "perm_invariant_sort", "", "chunks.sort() before joining"),
     (P + "semantic/resolver/names.rs", "hash-iter", "ambiguous_error:idents.iter +sorted", "inv:all", "perm_invariant_all", "", ".all(..)"),
+    (P + "sql/gen_expr.rs", "hash-iter", "translate_select_item:column_names.values", "inv:any", "perm_invariant_any", "", ".values().any(|n| *n == name): is the generated alias in use (755de8e)"),
     (P + "sql/gen_projection.rs", "hash-iter", "as_col_names:cids.iter +sorted", "inv:sort_by_key", "perm_invariant_sort_by_key", "", ".sorted_by_key(cid)"),
     (P + "sql/gen_projection.rs", "hash-iter", "translate_exclude:excluded.into_iter", "nothash", "", "", "`excluded` was shadowed by the sorted Vec of as_col_names"),
     (P + "sql/gen_projection.rs", "hash-iter", "try_into_exprs:cids.for", "nothash", "", "", "`cids` is a Vec<CId> here"),
@@ -69,6 +71,8 @@ SITES = [
     (P + "sql/pq/postprocess.rs", "hash-iter", "alias_last_sorting:cid_redirects.iter", "inv:find_unique", "perm_invariant_find_unique", "", "first redirect whose target is the column; redirect targets assumed distinct"),
     (P + "sql/pq/postprocess.rs", "hash-iter", "alias_last_sorting:column_decls.iter +sorted", "inv:sort_by_key", "c11_perm_invariant_alias_last_sorting", "", "entries sorted by descending column id before the column -> alias map is collected: the alias with the smallest id wins (was F10d)"),
     (P + "sql/pq/postprocess.rs", "hash-iter", "alias_last_sorting:relation_instances.iter +sorted", "inv:lookup", "perm_invariant_lookup", "", "re-collected into a map keyed by RIId (the flag comes from the sort of column_decls further down)"),
+    (P + "sql/pq/postprocess.rs", "hash-iter", "assign_names:relation_instances.values +sorted", "inv:any", "perm_invariant_any", "", "lower-cased aliases collected into a Vec that only extends the HashSet reserved_table_names, which is only asked .contains() (99a89d3; the flag comes from the sort of table_decls further down)"),
+    (P + "sql/pq/postprocess.rs", "hash-iter", "assign_names:table_decls.values +sorted", "inv:any", "perm_invariant_any", "", "lower-cased user table names, same use: membership in reserved_table_names (99a89d3)"),
     (P + "sql/pq/postprocess.rs", "hash-iter", "assign_names:table_decls.values_mut +sorted", "inv:sort_by_key", "perm_invariant_sort_by_key", "", ".sorted_by_key(id)"),
     (P + "sql/pq/postprocess.rs", "hash-iter", "fold_sql_query:relation_instances.iter_mut", "inv:min_by_key", "c11_perm_invariant_cte_instance", "", ".filter(source == cte.tid).min_by_key(riid): the instance with the smallest id (was F10f)"),
     (P + "sql/pq/preprocess.rs", "hash-iter", "vecs_contain_same_elements:a.iter", "nothash", "", "", "slice iteration collected into a set; sets compared with =="),
